@@ -105,6 +105,7 @@ class Ctx:
         self.extra = Counter()
         self.skipped_time = 0
         self.notes = {}
+        self.bulk = {}
         self._quiet = False
 
     # ---- bookkeeping
@@ -139,7 +140,9 @@ class Ctx:
         self.violations.append({"case": case, "message": str(message)[:4000]})
 
     def hyp_seed(self, salt=0) -> int:
-        return derive_seed(self.prop, self.seed, self.shard, salt)
+        sh = getattr(self, "seed_shard", None)
+        return derive_seed(self.prop, self.seed,
+                           self.shard if sh is None else sh, salt)
 
     # ---- hypothesis driver
     def run_given(self, strategy, fn, max_examples, shrinker=None, salt=0):
@@ -204,6 +207,7 @@ class Ctx:
             "extra": dict(self.extra),
             "skipped_time": self.skipped_time,
             "notes": self.notes,
+            "bulk": self.bulk,
             "wall_s": time.time() - self.t0,
         }
 
@@ -379,6 +383,18 @@ def run_check(prop, tier) -> int:
             violations.append(v)
         notes.update(r.get("notes", {}))
 
+    # optional cross-shard oracle (e.g. C03: the same cases run under
+    # different interpreter hash seeds in different shards)
+    if hasattr(mod, "cross_check"):
+        try:
+            for v in mod.cross_check(
+                    {i: r for i, r in results.items() if i >= 0}, hashseeds):
+                violations.append(v)
+        except Exception:
+            errors.append("cross_check: " + traceback.format_exc())
+        cross_pairs = getattr(mod.cross_check, "pairs", None)
+    else:
+        cross_pairs = None
     known = results.get(-1, {}).get("known", [])
     status = 0
     lines = []
@@ -426,6 +442,8 @@ def run_check(prop, tier) -> int:
     }
     if getattr(mod, "EXHAUSTIVE", None) and tier in mod.EXHAUSTIVE:
         coverage["exhaustive"] = True
+    if cross_pairs is not None:
+        coverage["cross_process_pairs_compared"] = cross_pairs
     coverage.update(plan.get("coverage", {}))
     coverage.update(notes)
     evidence = {
